@@ -46,12 +46,12 @@ fn thr(t: u32, folds: &[i64]) -> i64 {
         return 0;
     }
     let k = ((t >> 2) as usize) % folds.len();
-    folds[k] + match t & 3 {
+    folds[k].saturating_add(match t & 3 {
         0 => -1,
         1 => 0,
         2 => 1,
         _ => 0,
-    }
+    })
 }
 
 macro_rules! plain_alg {
@@ -100,6 +100,68 @@ macro_rules! plain_alg {
 plain_alg!(AMin, "Min", Min, |a, b| a.min(b), |o, t| o <= t);
 plain_alg!(AMax, "Max", Max, |a, b| a.max(b), |o, t| o >= t);
 plain_alg!(ASum, "Sum", Sum, |a, b| a + b, |o, t| o >= t);
+
+/// Plain min / max items over other element domains: i64 including the extreme values of the type (a sentinel MIN / MAX element is
+/// lawful for an item without modifiers), and f64 (whole numbers, so the i64 model is exact).
+macro_rules! plain_alg_t {
+    ($name:ident, $label:literal, $item:ident, $t:ty, $elem:expr, $to:expr, $from:expr, $fold:expr, $pred:expr) => {
+        pub struct $name;
+        impl Alg for $name {
+            const NAME: &'static str = $label;
+            const COMMUTATIVE: bool = true;
+            type M = ();
+            type Item = $item<$t>;
+            type E = i64;
+            type O = i64;
+            fn elem(raw: u32, nonneg: bool) -> i64 {
+                let f: fn(u32, bool) -> i64 = $elem;
+                f(raw, nonneg)
+            }
+            fn item(e: &i64) -> Self::Item {
+                let to: fn(i64) -> $t = $to;
+                if *e % 2 == 0 {
+                    $item::new(to(*e))
+                } else {
+                    $item::from(to(*e))
+                }
+            }
+            fn modifier(_: u32, _: bool) {}
+            fn apply(_: &mut i64, _: &()) {}
+            fn fold(es: &[i64]) -> i64 {
+                let f: fn(i64, i64) -> i64 = $fold;
+                es[1..].iter().fold(es[0], |a, &b| f(a, b))
+            }
+            fn obs(it: &Self::Item) -> i64 {
+                let from: fn($t) -> i64 = $from;
+                from(it.v)
+            }
+            fn pred(family: u8, t: u32, folds: &[i64]) -> Pred<i64> {
+                let th = thr(t, folds);
+                let p: fn(i64, i64) -> bool = $pred;
+                match family % 4 {
+                    0 => Box::new(|_| true),
+                    1 => Box::new(|_| false),
+                    _ => Box::new(move |o| p(*o, th)),
+                }
+            }
+        }
+    };
+}
+
+fn extreme_val(raw: u32, nonneg: bool) -> i64 {
+    match raw % 8 {
+        0 => i64::MIN,
+        1 => i64::MAX,
+        2 => i64::MIN + 1,
+        3 => i64::MAX - 1,
+        _ => val(raw, nonneg),
+    }
+}
+
+plain_alg_t!(AMinExt, "Min(i64, extreme values)", Min, i64, extreme_val, |x| x, |x| x, |a, b| a.min(b), |o, t| o <= t);
+plain_alg_t!(AMaxExt, "Max(i64, extreme values)", Max, i64, extreme_val, |x| x, |x| x, |a, b| a.max(b), |o, t| o >= t);
+plain_alg_t!(AMinF, "Min(f64)", Min, f64, val, |x| x as f64, |x| x as i64, |a, b| a.min(b), |o, t| o <= t);
+plain_alg_t!(AMaxF, "Max(f64)", Max, f64, val, |x| x as f64, |x| x as i64, |a, b| a.max(b), |o, t| o >= t);
 
 macro_rules! add_alg {
     ($name:ident, $label:literal, $item:ident, $fold:expr, $pred:expr) => {
@@ -653,7 +715,7 @@ pub type ACombSumMinMax = AComb<ASumAdd, AComb<AMinAdd, AMaxAdd>>;
 pub type AComb4 = AComb<AComb<ASumAdd, AMinAdd>, AComb<AMaxAdd, ASumAdd>>;
 pub type ACombMinMax = AComb<AMin, AMax>;
 
-pub const ALG_NAMES: [&str; 15] = [
+pub const ALG_NAMES: [&str; 19] = [
     "Min",
     "Max",
     "Sum",
@@ -669,4 +731,8 @@ pub const ALG_NAMES: [&str; 15] = [
     "AssignAddSum",
     "AssignAddMin",
     "FlipCount(zero-sized modifier)",
+    "Min(i64, extreme values)",
+    "Max(i64, extreme values)",
+    "Min(f64)",
+    "Max(f64)",
 ];
